@@ -1013,7 +1013,7 @@ func genGoMini(module string, order []string, units map[string][]string, constFi
 }
 
 // gmInlineErrs: units in which the package-level sentinel errors are values of their own (see expr, *ast.Ident).
-var gmInlineErrs = map[string]bool{"GoFence": true}
+var gmInlineErrs = map[string]bool{"GoFence": true, "GoReaderNew": true}
 
 // declared: is the name declared in any scope of the function being translated?
 func (g *gm) declared(name string) bool {
@@ -1139,6 +1139,10 @@ func genGoMiniAll() []*leanFile {
 		[]string{cl + "commitlog.go"},
 		map[string][]string{cl + "commitlog.go": {"commitLog.Append", "commitLog.AppendMessageSet"}},
 		clConsts)})
+	out = append(out, &leanFile{name: "GoReaderNew", raw: genGoMini("GoReaderNew",
+		[]string{cl + "reader.go"},
+		map[string][]string{cl + "reader.go": {"commitLog.newReaderCommitted", "commitLog.newReaderUncommitted", "commitLog.NewReader"}},
+		clConsts)})
 	out = append(out, &leanFile{name: "GoHWPos", raw: genGoMini("GoHWPos",
 		[]string{cl + "reader.go"},
 		map[string][]string{cl + "reader.go": {"getHWPos"}},
@@ -1189,7 +1193,7 @@ func genGoMiniAll() []*leanFile {
 		[]string{sv + "cursors.go"})})
 	out = append(out, &leanFile{name: "GoSubscribe", raw: genGoMini("GoSubscribe",
 		[]string{sv + "partition.go"},
-		map[string][]string{sv + "partition.go": {"partition.getStopOffset"}},
+		map[string][]string{sv + "partition.go": {"partition.getStopOffset", "partition.getStartOffset"}},
 		[]string{sv + "partition.go", sv + "api.go"})})
 	out = append(out, &leanFile{name: "GoMessageSet", raw: genGoMini("GoMessageSet",
 		[]string{cl + "message_set.go"},
